@@ -52,9 +52,16 @@ def strategy(mod, t, cfg, feats):
 def boundary_cases(mod, t):
     """catalogue types: every boundary value in the canonical form of every syntax, and with one non-canonical draw"""
     out = []
+    forced = {"ber": ["indef-chain", "unknown-ext", "default-present", "longlen", "set-permute"],
+              "uper": ["per-unknown-ext", "default-present"],
+              "oer": ["oer-unknown-ext", "default-present"],
+              "xer": ["xer-unknown-ext", "xer-unknown-ext=1,xer-unknown-ext-form=1", "xer-unknown-ext=1,xer-unknown-ext-form=2",
+                      "xer-selfclose"]}
     for v in gen.boundary_values(mod, t):
         for syn in sorted(set(SYN)):
             out.append((v, syn, []))
+            for f in forced[syn]:
+                out.append((v, syn, ["force:" + (x if "=" in x else x + "=1") for x in f.split(",")]))
         out.append((v, "ber", [1, 0, 1, 1, 0, 2, 1]))
     return out
 
@@ -84,8 +91,14 @@ def case_from_replay(mod, case):
 
 class ListChooser(ref_ber.Chooser):
     def __init__(self, decisions, enabled=None):
-        self.it = iter(decisions)
+        # integers are consumed one per drawn decision; "force:<label>=<n>" entries pin one kind of decision
+        # (used by the systematic catalogue cases)
+        self.it = iter([d for d in decisions if not isinstance(d, str)])
         ref_ber.Chooser.__init__(self, self._draw, enabled)
+        for d in decisions:
+            if isinstance(d, str) and d.startswith("force:"):
+                label, _, val = d[6:].partition("=")
+                self.force[label] = int(val or 1)
 
     def _draw(self, n):
         try:
